@@ -1,20 +1,20 @@
 #!/bin/bash
 # usage: tools/verify_seed.sh <Cxx>  — confirms a seeded change in /tmp/seed/<Cxx>: demo fails with it, passes without it,
 # and the 73 baseline tests still pass with it.  Leaves the change applied.
-id=$1; wt=/tmp/seed/$id
+id=$1; root=${SEEDROOT:-/tmp/seed}; wt=$root/$id
 cd $wt || exit 2
-git diff -- mokapot > /tmp/seed/${id}_verify.diff
-test -s /tmp/seed/${id}_verify.diff || { echo "$id: no change in worktree"; exit 2; }
-PYTHONPATH=$wt /venv/bin/python -W ignore demo_$id.py > /tmp/seed/${id}_demo_with.txt 2>&1; with=$?
-git apply -R /tmp/seed/${id}_verify.diff
-PYTHONPATH=$wt /venv/bin/python -W ignore demo_$id.py > /tmp/seed/${id}_demo_without.txt 2>&1; without=$?
-git apply /tmp/seed/${id}_verify.diff
-/venv/bin/python -m pytest -q -p no:cacheprovider --timeout=900 --continue-on-collection-errors --junitxml=/tmp/seed/${id}_junit.xml > /dev/null 2>&1
+git diff -- mokapot > $root/${id}_verify.diff
+test -s $root/${id}_verify.diff || { echo "$id: no change in worktree"; exit 2; }
+PYTHONPATH=$wt /venv/bin/python -W ignore demo_$id.py > $root/${id}_demo_with.txt 2>&1; with=$?
+git apply -R $root/${id}_verify.diff
+PYTHONPATH=$wt /venv/bin/python -W ignore demo_$id.py > $root/${id}_demo_without.txt 2>&1; without=$?
+git apply $root/${id}_verify.diff
+/venv/bin/python -m pytest -q -p no:cacheprovider --timeout=900 --continue-on-collection-errors --junitxml=$root/${id}_junit.xml > /dev/null 2>&1
 miss=$(python3 - <<PY
 import json, xml.etree.ElementTree as ET
 base = json.load(open("/root/.vp/BASELINE.json"))
 ok = set()
-for tc in ET.parse("/tmp/seed/${id}_junit.xml").getroot().iter("testcase"):
+for tc in ET.parse("$root/${id}_junit.xml").getroot().iter("testcase"):
     if not any(ch.tag in ("failure", "error", "skipped") for ch in tc):
         ok.add(tc.get("classname") + "::" + tc.get("name"))
 print(len([t for t in base["stable_pass"] if t not in ok]))
